@@ -40,6 +40,16 @@ def remLen (b : Bytes) : Nat → Nat → Nat → Nat → Option (Option (Nat × 
       let acc' := acc + (x % 128) * 2 ^ shift
       if x ≥ 128 then remLen b fuel (i + 1) (shift + 7) acc' else some (some (acc', i + 1))
 
+/-- the length bytes mqtt_pack_fixed_header writes for a remaining length (`fuel` = at most that many bytes) -/
+def encRem : Nat → Nat → Bytes
+  | 0, _ => []
+  | fuel + 1, n =>
+    if n > 127 then UInt8.ofNat (n % 128 + 128) :: encRem fuel (n / 128) else [UInt8.ofNat (n % 128)]
+
+/-- mqtt_pack_fixed_header: first byte and length bytes; lengths of 2^28 and more are refused -/
+def packHeader (ty flags rem : Nat) : Option Bytes :=
+  if rem ≥ 268435456 then none else some (UInt8.ofNat (ty % 16 * 16 + flags % 16) :: encRem 4 rem)
+
 /-- bytes of the packet id in the variable header -/
 def pidLen (qos : Nat) : Nat := if qos > 0 then 2 else 0
 
